@@ -2605,6 +2605,11 @@ func (vm *Thread) opForInBuiltin() {
 	iterator := vm.peek()
 	result, err := NextBuiltin(vm, iterator)
 	if !err.IsUndefined() {
+		if value.IsExecutionAborted(err) {
+			// the iteration has not finished, the thread has been aborted
+			vm.throw(err)
+			return
+		}
 		vm.pop()
 		vm.ipIncrementBy(uintptr(vm.readUint16()))
 		return
